@@ -46,8 +46,26 @@ func genSimpleTable(r *Rng, router int) (TableSpec, []genRoute) {
 					toks = append(toks, tplTok{kind: 1, name: "v" + itoa(k)})
 				}
 			}
+			method := r.Pick(methodPool[:4+r.Intn(9)])
+			if i > 0 && r.Pct(30) {
+				// a sibling of the previous route: same method, same length, literal and variable positions flipped
+				// at random (crossed shapes such as /a/{v} and /{v}/b, or literal-over-variable pairs)
+				prev := all[len(all)-1]
+				method = prev.spec.Method
+				toks = []tplTok{}
+				for k, pt := range prev.toks[len(rootToks):] {
+					switch {
+					case r.Pct(50):
+						toks = append(toks, pt)
+					case pt.kind == 0:
+						toks = append(toks, tplTok{kind: 1, name: "w" + itoa(k)})
+					default:
+						toks = append(toks, tplTok{kind: 0, text: r.Pick(simpleLits)})
+					}
+				}
+			}
 			rel := renderPath(toks, r)
-			rs := RouteSpec{ID: id, Method: r.Pick(methodPool[:4+r.Intn(9)]), Rel: rel}
+			rs := RouteSpec{ID: id, Method: method, Rel: rel}
 			if r.Pct(20) {
 				rs.Consumes = []string{"application/json"}
 			}
@@ -63,17 +81,52 @@ func genSimpleTable(r *Rng, router int) (TableSpec, []genRoute) {
 	return t, all
 }
 
+// another route that a single URL can satisfy together with gr: same method, same number of plain tokens, no
+// position where both have (different) literals; nil when there is none (or 60% of the time)
+func overlapPartner(r *Rng, routes []genRoute, gr genRoute) *genRoute {
+	if !r.Pct(40) {
+		return nil
+	}
+	cands := []int{}
+	for i, o := range routes {
+		if o.spec.ID == gr.spec.ID || o.spec.Method != gr.spec.Method || len(o.toks) != len(gr.toks) {
+			continue
+		}
+		ok := true
+		for k := range o.toks {
+			a, b := o.toks[k], gr.toks[k]
+			if a.kind > 1 || b.kind > 1 || a.verb != "" || b.verb != "" || (a.kind == 0 && b.kind == 0 && a.text != b.text) {
+				ok = false
+				break
+			}
+		}
+		if ok {
+			cands = append(cands, i)
+		}
+	}
+	if len(cands) == 0 {
+		return nil
+	}
+	return &routes[cands[r.Intn(len(cands))]]
+}
+
 func genSimpleRequest(r *Rng, routes []genRoute) *Req {
 	q := &Req{Method: r.Pick(methodPool)}
 	if len(routes) > 0 && r.Pct(85) {
 		gr := routes[r.Intn(len(routes))]
+		partner := overlapPartner(r, routes, gr)
 		segs := []string{}
-		for _, t := range gr.toks {
+		for k, t := range gr.toks {
 			if t.kind == 0 {
 				segs = append(segs, t.text)
+			} else if partner != nil && partner.toks[k].kind == 0 {
+				segs = append(segs, partner.toks[k].text) // aimed at both routes
 			} else {
-				segs = append(segs, r.Pick([]string{"x", "a", "b", "12", "ab"}))
+				segs = append(segs, r.Pick([]string{"x", "a", "b", "12", "ab", "a", "b", "%41b", "a%2Fb"}))
 			}
+		}
+		if partner != nil {
+			q.Method = gr.spec.Method
 		}
 		switch r.Intn(12) {
 		case 0:
